@@ -6,7 +6,7 @@ from harness.lib import zl, cz, cbool, clist
 
 ID = 'C11'
 RULE = ('flat cases: a data set of n sorted entries (group key, start, DNA sequence) cut into consecutive non-empty chunks '
-        '(all 2^(n-1) cuts for small n, sampled cut sets for larger n); on every chunking: chunk_entries / chunk_lines for '
+        '(all 2^(n-1) cuts for every n <= 7 in quick and every n <= 10 in thorough, sampled cut sets for n up to 40); on every chunking: chunk_entries / chunk_lines for '
         'several n, sum_and_n / mean / bincount / histogram (explicit bins+range) / count_kmers (k=2,3) on the stream, and '
         'groupby on four kinds of key column (StringArray, EncodedRaggedArray, int, StringEncoding-encoded). genome cases: '
         'genomes of 1..4 chromosomes, chunked interval streams through Genome.get_intervals(stream) and bnp.compute for '
@@ -125,7 +125,7 @@ def generate(tier, seed):
     # --- flat: exhaustive chunkings of small data sets
     max_exh = 7 if quick else 10
     for n in range(1, max_exh + 1):
-        for rep in range(1 if quick else 2):
+        for rep in range(1 if quick else 3):
             ds = _dataset(rng, n)
             for sizes in compositions(n):
                 cases.append(_flat(ds, sizes))
@@ -150,7 +150,7 @@ def generate(tier, seed):
         cases.append(_rechunk([n]))
     # --- genome pipelines
     for nchrom in (1, 2, 3, 4):
-        for rep in range(2 if quick else 12):
+        for rep in range(3 if quick else 18):
             equal = rep % 3 != 2
             sizes, a, b = _genome_data(rng, nchrom, equal)
             comps_a = compositions(len(a)) if len(a) <= (4 if quick else 7) else \
